@@ -206,6 +206,465 @@ def hand_trees():
     ]
 
 
+# ------------------------------------------------------------------------------------------
+# LINES: directed documents written line by line.  A block is a list of source lines (relative to
+# its container) plus the expected token shape with relative start lines; containers prefix the
+# lines of their content and shift nothing else, so the writer knows the line of every block
+# without any parser.  This domain adds what the DOCS writer cannot spell: identical sibling
+# blocks and table rows, spacer / short / over-long rows, runs of >= 2 blank lines (also
+# whitespace-only ones) between blocks, after list items and at the start of the input, setext
+# headings with multi-line content, multi-line link reference definitions followed directly by
+# text, whitespace-only lines in front of an indented code block.
+
+NAMES = dict(KIND, ListItem='item', TableRow='row', TableCell='cell')
+
+
+class Blk:
+    __slots__ = ('lines', 'exp', 'lazy', 'tag')
+
+    def __init__(self, lines, exp, lazy=(), tag=''):
+        self.lines = lines      # source lines without terminators
+        self.exp = exp          # [(kind, relative line, children | None)]; None: cells of a row
+        self.lazy = set(lazy)   # paragraph continuation lines whose container prefixes may be dropped
+        self.tag = tag
+
+
+def _shift(exp, d):
+    return [(k, o + d, None if ch is None else _shift(ch, d)) for k, o, ch in exp]
+
+
+def leaf(kind, *lines, tag=None):
+    return Blk(list(lines), [(kind, 0, [])], tag=tag or kind)
+
+
+def para(*lines):
+    return Blk(list(lines), [('para', 0, [])], range(1, len(lines)), 'para')
+
+
+def defn(*lines):
+    return Blk(list(lines), [], tag='def')
+
+
+def table(*lines):
+    """lines[0] header row, lines[1] delimiter row, then the body rows"""
+    rows = [('row', 0, None)] + [('row', k, None) for k in range(2, len(lines))]
+    return Blk(list(lines), [('table', 0, rows)], tag='table')
+
+
+def seq(blocks, gaps=1, lead=()):
+    """Sibling sequence; gaps: one entry (or one per gap), a count of empty lines or the list of
+    blank lines themselves; lead: blank lines in front of the first block."""
+    lines, exp, lazy = list(lead), [], set()
+    for i, b in enumerate(blocks):
+        if i:
+            g = gaps[i - 1] if isinstance(gaps, (list, tuple)) else gaps
+            lines.extend([''] * g if isinstance(g, int) else g)
+        d = len(lines)
+        lines.extend(b.lines)
+        exp.extend(_shift(b.exp, d))
+        lazy |= {d + j for j in b.lazy}
+    return Blk(lines, exp, lazy, blocks[0].tag if len(blocks) == 1 else 'seq')
+
+
+def quote(blocks, gaps=1, lead=(), lazy=False):
+    inner = seq(blocks, gaps, lead) if blocks else Blk([''], [])
+    lines, lz = [], set()
+    for i, l in enumerate(inner.lines):
+        if lazy and i in inner.lazy:
+            lines.append(l)
+            lz.add(i)
+        else:
+            lines.append('>' if l == '' else '> ' + l)
+    return Blk(lines, [('quote', 0, inner.exp)], lz, 'quote')
+
+
+def item(blocks, gaps=1, blank_start=False, lazy=False):
+    return (seq(blocks, gaps) if blocks else None, blank_start, lazy)
+
+
+def lst(items, marker='-', between=0):
+    """items: results of item(); marker '-', '+' or 'N.' / 'N)' (numbered upwards); between: blank
+    lines between the items."""
+    lines, kids, lz = [], [], set()
+    for k, (inner, bs, lazy) in enumerate(items):
+        m = '%d%s' % (int(marker[:-1]) + k, marker[-1]) if marker[0].isdigit() else marker
+        if k:
+            lines.extend([''] * between if isinstance(between, int) else between)
+        d = len(lines)
+        if inner is None:
+            lines.append(m)
+            kids.append(('item', d, []))
+            continue
+        w, off = len(m) + 1, 0
+        if bs:
+            lines.append(m)
+            off = 1
+        for i, l in enumerate(inner.lines):
+            if i == 0 and not bs:
+                lines.append(m + ' ' + l)
+            elif l == '':
+                lines.append('')
+            elif lazy and i in inner.lazy:
+                lines.append(l)
+                lz.add(d + off + i)
+            else:
+                lines.append(' ' * w + l)
+        kids.append(('item', d, _shift(inner.exp, d + off)))
+    return Blk(lines, [('list', 0, kids)], lz, 'list')
+
+
+def ldoc(blocks, gaps=1, lead=(), end='\n'):
+    b = seq(blocks, gaps, lead)
+    return '\n'.join(b.lines) + end, _shift(b.exp, 1)
+
+
+def lmatch(tokens, exp, path, out):
+    """Append (path, kind, token, expected line); raise Shape when the token tree is not the
+    expected one (the case then is a parsing matter, C03, not a line-number one)."""
+    if len(tokens) != len(exp):
+        raise Shape('%s: %d tokens for %d blocks' % (path, len(tokens), len(exp)))
+    for i, (tok, (kind, line, ch)) in enumerate(zip(tokens, exp)):
+        p = '%s/%s[%d]' % (path, kind, i)
+        if NAMES.get(type(tok).__name__) != kind:
+            raise Shape('%s: token %s for %s' % (p, type(tok).__name__, kind))
+        out.append((p, kind, tok, line))
+        if kind in ('quote', 'list', 'item'):
+            lmatch(tok.children, ch, p, out)
+        elif kind == 'table':
+            rows = [getattr(tok, 'header', None)] + list(tok.children)
+            if rows[0] is None or len(rows) != len(ch):
+                raise Shape('%s: table rows' % p)
+            for k, (tr, (_, rl, _)) in enumerate(zip(rows, ch)):
+                pr = '%s/row[%d]' % (p, k)
+                if type(tr).__name__ != 'TableRow':
+                    raise Shape(pr)
+                out.append((pr, 'row', tr, rl))
+                # the number of cells of a short / over-long row is not this property's business:
+                # every cell token of the row must report the row's line
+                for j, tc in enumerate(tr.children):
+                    if type(tc).__name__ != 'TableCell':
+                        raise Shape(pr)
+                    out.append(('%s/cell[%d]' % (pr, j), 'cell', tc, rl))
+
+
+def lcheck(text, exp):
+    """-> ('ok'|'shape'|'noraise'|'c13', n_compared, detail)"""
+    try:
+        doc, _ = parse(text)
+    except Exception as e:               # noqa
+        return 'noraise', 0, '%s: %s' % (type(e).__name__, e)
+    out = []
+    try:
+        lmatch(doc.children, exp, '', out)
+    except Shape as e:
+        return 'shape', 0, str(e)
+    except Exception as e:               # noqa: malformed token tree
+        return 'shape', 0, 'error while matching: %r' % (e,)
+    bad = [{'path': p, 'expected_line': line, 'observed_line': getattr(tok, 'line_number', None)}
+           for p, kind, tok, line in out if getattr(tok, 'line_number', None) != line]
+    if getattr(doc, 'line_number', None) != 1:
+        bad.append({'path': '/', 'expected_line': 1, 'observed_line': getattr(doc, 'line_number', None)})
+    return ('c13' if bad else 'ok'), len(out) + 1, bad
+
+
+def _content(line):
+    """The line without block quote markers and indentation."""
+    return line.replace('>', ' ').strip(' \t')
+
+
+def lclassify(text, bad):
+    """'indented-code-block-starts-at-preceding-whitespace-line': the only wrong tokens are
+    indented code blocks, reported on a whitespace-only (blank) line that directly precedes the
+    code -- CommonMark 0.30 section 4.4: blank lines preceding an indented code block are not
+    part of it."""
+    src = text.split('\n')
+    for m in bad:
+        o, e = m['observed_line'], m['expected_line']
+        if '/icode[' not in m['path'].rsplit('/', 1)[-1] + '[' or not isinstance(o, int) or not 1 <= o < e:
+            return 'unclassified'
+        if any(_content(src[k - 1]) != '' for k in range(o, e)):
+            return 'unclassified'
+        if src[o - 1].replace('>', ' ').strip('\t ') != '' or len(src[o - 1].expandtabs(4)) < 4:
+            return 'unclassified'
+    return 'indented-code-block-starts-at-preceding-whitespace-line'
+
+
+# -- vocabulary ----------------------------------------------------------------------------
+
+VOCAB = {
+    'p1': lambda: para('aaa'),
+    'p2': lambda: para('aaa', 'bbb'),
+    'p3': lambda: para('foo', 'bar', 'baz'),
+    'atx': lambda: leaf('atx', '# head'),
+    'setext': lambda: leaf('setext', 'Title', '====='),
+    'setext3': lambda: leaf('setext', 'multi', 'line title', 'third', '==='),
+    'setext-': lambda: leaf('setext', 'multi', 'line', '---', tag='setext'),
+    'hr': lambda: leaf('hr', '***'),
+    'fence': lambda: leaf('fence', '```', 'code', '```'),
+    'fenceb': lambda: leaf('fence', '~~~ py', 'x', '', '', 'y', '~~~'),
+    'icode': lambda: leaf('icode', '    code'),
+    'icodeb': lambda: leaf('icode', '    a', '', '      ', '    b', tag='icode'),
+    'html': lambda: leaf('html', '<div>', 'hello', '</div>', tag='html6'),
+    'htmlc': lambda: leaf('html', '<!-- c -->'),
+    'htmlp': lambda: leaf('html', '<pre>', 'x', '', 'y', '</pre>'),
+    'table': lambda: table('| a | b |', '|---|---|', '| c | d |', '| c | d |'),
+    'quote': lambda: quote([para('qq')]),
+    'quotez': lambda: quote([para('qq', 'lazy')], lazy=True),
+    'quote2': lambda: quote([para('qq'), leaf('atx', '## h')], gaps=2),
+    'list': lambda: lst([item([para('li')])]),
+    'list2': lambda: lst([item([para('li')]), item([para('li')])]),
+    'list2l': lambda: lst([item([para('li')]), item([para('li')])], between=1),
+    'listn': lambda: lst([item([para('li'), lst([item([para('li')])], '+')], gaps=0)]),
+    'listb': lambda: lst([item([para('li')], blank_start=True), item([])]),
+    'olist': lambda: lst([item([para('li')]), item([para('li', 'li')])], '1.'),
+    'def1': lambda: defn('[foo]: /url'),
+    'def2': lambda: defn('[foo]: /url', '  "the title"'),
+    'def3': lambda: defn('[foo]:', '/url', "'t'"),
+    'def4': lambda: defn('[foo]: /url "multi', 'line"', '[bar]: /u2'),
+    'def5': lambda: defn('[fo', 'o]: <u>'),
+    # the second line is not a title: the definition ends on line 1, a paragraph starts on line 2
+    'defp': lambda: Blk(['[foo]: /url', '"title" trailing'], [('para', 1, [])], tag='para'),
+}
+LEAVES = ['p1', 'p2', 'atx', 'setext', 'setext3', 'setext-', 'hr', 'fence', 'fenceb', 'icode', 'icodeb',
+          'html', 'htmlc', 'htmlp', 'table']
+CONTS = ['quote', 'quotez', 'quote2', 'list', 'list2', 'list2l', 'listn', 'listb', 'olist']
+DEFS = ['def1', 'def2', 'def3', 'def4', 'def5', 'defp']
+
+TABLES = {
+    'dup': ('| a | b |', '|---|---|', '| c | d |', '| c | d |'),
+    'dup5': ('| a | b |', '| --- | :-: |', '| c | d |', '| e | f |', '| c | d |', '| e | f |', '| c | d |'),
+    'hdr': ('| a | b |', '|---|---|', '| a | b |', '| c | d |', '| a | b |'),
+    'spacer': ('| a | b |', '|---|---|', '|  |  |', '| c | d |', '|  |  |', '|  |  |'),
+    'delim': ('| a | b |', '|---|---|', '|---|---|', '| c | d |', '|---|---|'),
+    'short': ('| a | b |', '|---|---|', '| c |', '| c |', '| c | d |'),
+    'long': ('| a | b |', '|---|---|', '| c | d | e |', '| c | d |', '| c | d | e |'),
+    'astral': ('| \U0001F600 | é |', '|:--|--:|', '| \U0001F600 | é |', '| \U00010348́ | x |',
+               '| \U0001F600 | é |'),
+    'nopipe': ('a | b', '--- | ---', 'c | d', 'c | d'),
+    'onecol': ('| a |', '|---|', '| a |', '| b |', '| a |'),
+    'norows': ('| a | b |', '|---|---|'),
+    'spaces': ('| a | b |', '|---|---|', '| c | d |', '|c|d|', '| c | d |  ', '|  c  |  d  |', '| c | d |'),
+    'escpipe': ('| a | b |', '|---|---|', '| `x\\|y` | d |', '| `x\\|y` | d |'),
+}
+
+
+def allowed(a, b, g):
+    """May block b follow block a after g blank lines (tags; CommonMark 0.30 sections 4-5)?"""
+    ta, tb = a.tag, b.tag
+    if ta == 'icode' and tb == 'icode':
+        return False                      # one code block
+    if ta == 'list' and tb in ('icode', 'list'):
+        return False                      # continuation of the last item / one list
+    if g > 0:
+        return True
+    if ta in ('atx', 'hr', 'fence', 'html', 'setext'):
+        return True                       # closed on their last line
+    if ta == 'def':
+        return tb != 'icode'              # an indented line continues the paragraph-like definition
+    if ta == 'para':
+        return tb in ('atx', 'hr', 'fence', 'quote', 'html', 'html6')
+    if ta == 'table':
+        return tb in ('atx', 'hr', 'fence', 'quote')
+    return False                          # html6, quote, list: a blank line is needed
+
+
+# contexts: (blocks, gaps, lead) -> list of top-level blocks, or None when not spellable
+def _q(inner=None, lazy=False):
+    def f(bs, g, lead):
+        r = [quote(bs, g, lead, lazy=lazy)]
+        return inner(r, 1, ()) if inner else r
+    return f
+
+
+def _l(inner=None, marker='-', blank_start=False, second=None, lazy=False):
+    def f(bs, g, lead):
+        if lead:
+            return None                   # an item cannot begin with two blank lines
+        if bs[0].tag == 'def' and blank_start:
+            return None
+        items = [item(bs, g, blank_start=blank_start, lazy=lazy)]
+        if second is not None:
+            items.insert(0, item([para('one')]))
+        r = [lst(items, marker, between=second or 0)]
+        return inner(r, 1, ()) if inner else r
+    return f
+
+
+def _after_para(bs, g, lead):
+    return [para('zzz'), quote(bs, g, lead)]
+
+
+CTXS = {
+    'top': lambda bs, g, lead: [seq(bs, g, lead)],
+    'Q': _q(), 'Qz': _q(lazy=True),
+    'L': _l(), 'Lz': _l(lazy=True), 'Lb': _l(blank_start=True), 'O': _l(marker='10.'),
+    'L2': _l(second=0), 'L2l': _l(second=1), 'L2b': _l(second=2, blank_start=True),
+    'QL': _l(_q()), 'QLz': _l(_q(lazy=True), lazy=True), 'LQ': _q(_l()), 'LQz': _q(_l(lazy=True), lazy=True),
+    'QQ': _q(_q()), 'LL': _l(_l(), marker='+'), 'QLQ': _q(_l(_q())), 'LQL': _l(_q(_l()), marker='+'),
+    'QL2': _l(_q(), second=1), 'LbQ': _q(_l(blank_start=True)), 'pQ': _after_para,
+}
+# NB: _q(inner) / _l(inner) build the innermost container first: 'QL' = a list inside a quote,
+# 'LQ' = a quote inside a list item.
+
+
+def _in(ctx, bs, g=1, lead=()):
+    return CTXS[ctx](bs, g, lead)
+
+
+def _ok_seq(bs, gaps):
+    gl = gaps if isinstance(gaps, (list, tuple)) else [gaps] * (len(bs) - 1)
+    for a, b, g in zip(bs, bs[1:], gl):
+        if not allowed(a, b, g if isinstance(g, int) else len(g)):
+            return False
+    return True
+
+
+def line_cases():
+    """Yield (tag, blocks, gaps, lead) of top-level documents -- deterministic, seed independent."""
+    V = VOCAB
+    ctxs = list(CTXS)
+
+    def emit(tag, ctx, bs, g=1, lead=(), after=None, ag=1, dlead=()):
+        """bs inside the context; `after`: top-level blocks following the context"""
+        if not _ok_seq(bs, g):
+            return None
+        top = _in(ctx, bs, g, lead)
+        if top is None:
+            return None
+        gaps = [1] * (len(top) - 1)
+        if after:
+            top = top + after
+            gaps += [ag] + [1] * (len(after) - 1)
+        return ('%s|%s' % (tag, ctx), top, gaps, dlead)
+
+    # A. tables: identical / spacer / short / over-long rows, in every context, preceded by blank
+    #    lines, definitions and paragraphs inside the container, followed by other blocks
+    pres = [('none', [], [], ()), ('lead1', [], [], ['']), ('lead3', [], [], ['', '  ', '']),
+            ('def0', ['def1'], [0], ()), ('def1', ['def1'], [1], ()), ('def2', ['def2'], [0], ()),
+            ('def2b', ['def2', 'def3'], [0, 2], ()), ('para1', ['p1'], [1], ()), ('para3', ['p2'], [3], ()),
+            ('atx0', ['atx'], [0], ()), ('tab', ['table'], [1], ()), ('lead+def', ['def4'], [1], [''])]
+    for tn, tl in TABLES.items():
+        for c in ctxs:
+            for pn, pb, pg, lead in pres:
+                for an, after, ag in (('end', None, 1), ('p', ['p1'], 1), ('atx', ['atx'], 0), ('same', ['table'], 2)):
+                    bs = [V[k]() for k in pb] + [table(*tl)]
+                    inner_after = [V[k]() for k in after] if after else []
+                    # the follower goes inside the container as well
+                    yield emit('A:%s:%s:%s' % (tn, pn, an), c, bs + inner_after, pg + ([ag] if after else []), lead)
+            for dl in (['', ''], ['   ']):
+                yield emit('A:%s:doclead' % tn, c, [table(*tl)], 1, (), after=[V['p1']()], dlead=dl)
+
+    # B. lists followed by >= 2 blank lines and a non-list block / the end of input, at any depth
+    def lists():
+        P = lambda *a: para(*(a or ('li',)))      # noqa: E731
+        yield 'one', lambda m: lst([item([P()])], m)
+        yield 'one2', lambda m: lst([item([P('li', 'li2')])], m)
+        yield 'two', lambda m: lst([item([P()]), item([P()])], m)
+        yield 'twol', lambda m: lst([item([P()]), item([P()])], m, between=2)
+        yield 'pf', lambda m: lst([item([P(), V['fence']()], gaps=2)], m)
+        yield 'bs', lambda m: lst([item([P()], blank_start=True)], m)
+        yield 'bs2', lambda m: lst([item([P()]), item([P(), P()], blank_start=True, gaps=2)], m)
+        yield 'nest', lambda m: lst([item([P(), lst([item([P()])], '+')], gaps=0)], m)
+        yield 'nest3', lambda m: lst([item([P(), lst([item([P(), lst([item([P()]), item([P()])], '2)')],
+                                                         gaps=0)], '+')], gaps=0)], m)
+        yield 'nestbs', lambda m: lst([item([lst([item([P()], blank_start=True)], '+')], blank_start=True)], m)
+        yield 'late', lambda m: lst([item([P(), lst([item([P()])], '+'), P('ccc'), V['atx']()],
+                                         gaps=[0, 2, 3])], m)
+        yield 'late2', lambda m: lst([item([P(), lst([item([P(), lst([item([P()])], '1.'), P('in')],
+                                                          gaps=[0, 2])], '+'), P('out')], gaps=[0, 3])], m)
+        yield 'q', lambda m: lst([item([quote([P()])])], m)
+        yield 'qn', lambda m: lst([item([P(), quote([lst([item([P()]), item([P()])], '+')])], gaps=2)], m)
+        yield 'empty', lambda m: lst([item([P()]), item([])], m)
+        yield 'icode', lambda m: lst([item([V['icode']()]), item([P(), V['icodeb']()], gaps=2)], m)
+        yield 'tbl', lambda m: lst([item([V['table']()]), item([V['table']()])], m)
+
+    followers = [None, 'p1', 'p2', 'atx', 'setext3', 'hr', 'fence', 'html', 'table', 'quote', 'olist', 'def2']
+    for ln, mk in lists():
+        for marker in ('-', '3.'):
+            for nb in (1, 2, 3, ['  ', ''], ['', '    ', '']):
+                for fo in followers:
+                    for c in ctxs:
+                        if c in ('LL', 'LQL') or (marker == '3.' and c not in ('top', 'Q', 'L', 'LQ', 'QL')):
+                            continue      # '+' is used by the nested lists of the shapes
+                        l = mk(marker)
+                        if fo is None:
+                            n = nb if isinstance(nb, int) else len(nb)
+                            yield emit('B:%s:%s:eof%d' % (ln, marker, n), c, [l], 1, (),
+                                       after=None, dlead=())
+                            continue
+                        f = V[fo]()
+                        if fo == 'olist' and marker == '3.':
+                            f = V['list']()
+                        # follower inside the context (same container as the list) ...
+                        yield emit('B:%s:%s:in:%s' % (ln, marker, fo), c, [l, f], [nb])
+                        # ... and behind the context, at the top level
+                        if c != 'top':
+                            yield emit('B:%s:%s:out:%s' % (ln, marker, fo), c, [l], 1, (), after=[f], ag=nb)
+
+    # C. all ordered pairs of the vocabulary (identical siblings included) x gaps x contexts
+    names = LEAVES + CONTS + DEFS
+    for a in names:
+        for b in names:
+            for g in (0, 1, 2, 3):
+                for c in ctxs:
+                    x, y = V[a](), V[b]()
+                    if x.tag == 'list' and y.tag == 'list':
+                        y = lst([item([para('li')]), item([para('li')])], '+' if a != 'listn' else '7)')
+                        if c in ('LL', 'LQL') or a == 'olist':
+                            continue
+                    yield emit('C:%s:%s:%d' % (a, b, g), c, [x, y], g)
+    # identical blocks around a different one
+    for a in LEAVES + CONTS:
+        for m in ('p1', 'atx', 'def2'):
+            for c in ctxs:
+                if V[a]().tag == 'list' and c in ('LL', 'LQL'):
+                    continue
+                yield emit('C3:%s:%s' % (a, m), c, [V[a](), V[m](), V[a]()], [1, 2] if m != 'def2' else [2, 1])
+    # identical list items (tight, loose, with children)
+    for c in ctxs:
+        if c in ('LL', 'LQL'):
+            continue
+        for m in ('-', '1.'):
+            for bt in (0, 1, 2):
+                for ch in (['p1'], ['p1', 'fence'], ['atx'], ['fence'], ['p2', 'quote'], ['icode']):
+                    its = [item([V[k]() for k in ch], gaps=1) for _ in range(3)]
+                    yield emit('C4:%s:%d:%s' % (m, bt, '+'.join(ch)), c, [lst(its, m, between=bt)])
+
+    # D. blank lines at the start of the input (and of a container), empty and whitespace-only
+    leads = [[''], ['', ''], ['', '', ''], [''] * 5, ['  '], ['\t'], ['', '   ', ''], ['   ', '']]
+    for a in names:
+        for ld in leads:
+            for c in ('top', 'Q', 'QQ', 'LQ', 'pQ'):
+                yield emit('D:%s:%d' % (a, len(ld)), c, [V[a](), V['p1']()], 1, ld)
+            for c in ctxs:
+                yield emit('D2:%s:%d' % (a, len(ld)), c, [V[a]()], 1, (), after=[V['p1']()], dlead=ld)
+
+    # E. whitespace-only lines of >= 4 columns in front of an indented code block
+    for pre in (None, 'p1', 'atx', 'fence', 'def1', 'quote'):
+        for gap in (['    '], ['     '], ['', '      '], ['      ', ''], ['\t'], ['    ', '     '], ['  \t  ']):
+            for code in ('icode', 'icodeb'):
+                for c in ctxs:
+                    if pre is None:
+                        yield emit('E:none:%s' % code, c, [V[code](), V['p1']()], 1, gap)
+                    else:
+                        yield emit('E:%s:%s' % (pre, code), c, [V[pre](), V[code](), V['p1']()], [gap, 1])
+
+
+def line_docs(k, n):
+    """Slice k of n of the directed documents: (tag, text, expected shape)."""
+    i = 0
+    for case in line_cases():
+        if case is None:
+            continue
+        i += 1
+        if i % n != k:
+            continue
+        tag, top, gaps, dlead = case
+        end = ('', '\n\n\n')[i % 7] if i % 7 < 2 else '\n'
+        text, exp = ldoc(top, gaps, dlead, end)
+        yield tag, text, exp
+
+
 BIASES = [
     {'blank_start': 1.0},
     {'blank_start': 1.0, 'lazy': 0.9, 'indent': 0.7},
